@@ -952,6 +952,12 @@ impl Gen {
             WorldKind::FeedOnly => self.gen_feed(r, rng),
         };
         st.clock = clock;
+        // native collateral: coins attached to a call that takes none (they may only end up on a conserved-set account)
+        if self.profile.prop == "C03" && r.w.cfg.kind == WorldKind::Standard && r.w.cfg.coll.is_native() && st.funds == 0 && rng.chance(1, 10) {
+            if matches!(st.op, Op::PayFunding { .. } | Op::Liquidate { .. } | Op::Withdraw { .. } | Op::Close { .. } | Op::SetPause { .. } | Op::EngineConfig { .. } | Op::AddWhitelist { .. } | Op::RemoveWhitelist { .. }) {
+                st.funds = rng.range128(1, 5_000_000);
+            }
+        }
         if st.op.is_engine_user_op() && rng.chance(self.profile.p_fault.0, self.profile.p_fault.1) {
             st.fault = Some(if rng.chance(4, 5) {
                 Fault::Index(rng.range(1, 8) as u32)
